@@ -205,9 +205,15 @@ pub fn gen(rng: &mut Rng, n: usize, out: &mut Vec<String>) {
                 let o = c.w.marginfi_account(&c.old);
                 let nw = c.w.marginfi_account(&c.new_key);
                 out.push(format!("{} => ok {} // {}", head, show(&o, &mut keys), show(&nw, &mut keys)));
+                // the same case as the world state machine sees it (`World.transferIx`: the fields an `AcctV` carries)
+                let wv = |a: &MarginfiAccount, keys: &mut Keys| format!("{} {} {} {} {}", keys.n(&a.group), keys.n(&a.authority), a.account_flags, keys.n(&a.migrated_to), slots(a, keys));
+                out.push(format!("wd.xfer{} => ok {} // {}", &head[8..], wv(&o, &mut keys), wv(&nw, &mut keys)));
             }
             Err(e) => match e.code() {
-                Some(code) => out.push(format!("{} => err {}", head, code)),
+                Some(code) => {
+                    out.push(format!("{} => err {}", head, code));
+                    if code >= 6000 { out.push(format!("wd.xfer{} => err {}", &head[8..], code)); }
+                }
                 None => out.push(format!("{} => {}", head, e)),
             },
         }
